@@ -54,6 +54,14 @@ class Raw(bytes):
     pass
 
 
+class _Drop:
+    def __repr__(self):
+        return "DROP"
+
+
+DROP = _Drop()  # trailer_extra value meaning "omit this key"
+
+
 class Stream:
     def __init__(self, d: Optional[Dict[str, Any]] = None, data: bytes = b"", length: Any = "auto", eol_after=b"\n", eol_before=b"\n"):
         self.d = dict(d or {})
@@ -213,10 +221,14 @@ class Doc:
         if info is not None:
             tr["Info"] = info
         tr.update(trailer_extra or {})
+        if any(v is DROP for v in tr.values()):
+            tr = {k: v for k, v in tr.items() if v is not DROP}
         if xref == "table":
             body, offs = self.body(order)
             size = max(self.objs) + 1
             tr = {"Size": size, **tr}
+            if any(v is DROP for v in tr.values()):
+                tr = {k: v for k, v in tr.items() if v is not DROP}
             x = xref_table(offs)
             return body + x + b"trailer\n" + ser(tr) + b"\nstartxref\n%d\n%%%%EOF\n" % len(body)
         # xref stream, optionally with an object stream
@@ -248,6 +260,7 @@ class Doc:
         entries[0] = (0, 0, 65535)
         size = xnum + 1
         sd = {"Type": N("XRef"), "Size": size, **tr}
+        sd = {k: v for k, v in sd.items() if v is not DROP}
         xs = xref_stream_obj(entries, sd, W=(1, 4, 2))
         return body + b"%d 0 obj\n" % xnum + ser(xs) + b"\nendobj\nstartxref\n%d\n%%%%EOF\n" % len(body)
 
